@@ -18,7 +18,7 @@ VARIABLE pcase
 PBody == POFamBody(pcase)
 PMsg  == [body |-> PBody, meaning |-> "", desc |-> "d"]
 
-Init == pcase \in {d \in POFamFlat(MaxParts) \cup POFamPlural(MaxInner) \cup POFamExtra :
+Init == pcase \in {d \in POFamFlat(MaxParts) \cup POFamBrace(MaxParts) \cup POFamPlural(MaxInner) \cup POFamExtra :
                       POShardOf(d, NShards) = Shard /\ PODomain(POFamBody(d))}
 Next == UNCHANGED pcase
 
